@@ -40,6 +40,7 @@ OBLIGATIONS: list[str] = [
     "VgiVerif.C31.C31_exact_parallel",
     "VgiVerif.C31.C31_lying_probe",
     "VgiVerif.C31.C31_inflate_bound",
+    "VgiVerif.C31.C31_sequence",
     "VgiVerif.C31.C31_redact",
     "VgiVerif.C31.C31_redact_all",
 ]
@@ -247,8 +248,20 @@ def make_validator(vspec: dict[str, Any], seen: list[tuple[str, bool]]) -> Any:
     return validator
 
 
-def run_real(case: dict[str, Any], origin: Origin, meter: ReadMeter) -> dict[str, Any]:
-    from vgi_rpc.external_fetch import FetchConfig, fetch_url
+def make_config(c: dict[str, Any]) -> Any:
+    from vgi_rpc.external_fetch import FetchConfig
+
+    return FetchConfig(
+        parallel_threshold_bytes=c["parallelThreshold"], chunk_size_bytes=c["chunkSize"], max_parallel_requests=c["maxParallel"],
+        timeout_seconds=c.get("timeout", 30.0), max_fetch_bytes=c["maxFetch"], max_decompressed_bytes=c["maxDecompressed"],
+        max_redirects=c["maxRedirects"], speculative_retry_multiplier=c.get("hedgeMultiplier", 0.0),
+        max_speculative_hedges=c.get("maxHedges", 4),
+    )
+
+
+def run_real(case: dict[str, Any], origin: Origin, meter: ReadMeter, shared_cfg: Any = None) -> dict[str, Any]:
+    """One real `fetch_url`; `shared_cfg` = a long-lived FetchConfig (pool) owned by the caller and used for several fetches."""
+    from vgi_rpc.external_fetch import fetch_url
 
     origin.set_script(case["script"], case.get("_prefix", "/"))
     meter.reset()
@@ -261,12 +274,7 @@ def run_real(case: dict[str, Any], origin: Origin, meter: ReadMeter) -> dict[str
     old_level = root.level
     root.addHandler(cap)
     root.setLevel(logging.DEBUG)
-    cfg = FetchConfig(
-        parallel_threshold_bytes=c["parallelThreshold"], chunk_size_bytes=c["chunkSize"], max_parallel_requests=c["maxParallel"],
-        timeout_seconds=c.get("timeout", 30.0), max_fetch_bytes=c["maxFetch"], max_decompressed_bytes=c["maxDecompressed"],
-        max_redirects=c["maxRedirects"], speculative_retry_multiplier=c.get("hedgeMultiplier", 0.0),
-        max_speculative_hedges=c.get("maxHedges", 4),
-    )
+    cfg = shared_cfg if shared_cfg is not None else make_config(c)
     out: dict[str, Any] = {}
     try:
         try:
@@ -283,10 +291,11 @@ def run_real(case: dict[str, Any], origin: Origin, meter: ReadMeter) -> dict[str
             out["text"] = "\n".join(texts)
             out["exc_type"] = type(e).__name__
     finally:
-        try:
-            cfg.close()
-        except Exception as e:  # pragma: no cover
-            out["close_error"] = repr(e)
+        if shared_cfg is None:
+            try:
+                cfg.close()
+            except Exception as e:  # pragma: no cover
+                out["close_error"] = repr(e)
         root.removeHandler(cap)
         root.setLevel(old_level)
     out["inflate"] = _inflate.snapshot() if _inflate is not None else []
@@ -1504,6 +1513,80 @@ def run_fetch_case(ctx: Any, case: dict[str, Any], tags: tuple[str, ...] = ()) -
     correspond(ctx, case, live, real)
 
 
+def gen_seq_case(rng: Any) -> dict[str, Any]:
+    """Several fetches on ONE long-lived FetchConfig (pool), the validator changing between them: a different validator object
+    every time, a policy that revokes a host / path it accepted before (the start URL, a hop or the final target), no validator."""
+    for _ in range(50):
+        base = gen_case(rng)
+        if base.get("validator") is not None and base["cfg"]["maxRedirects"] >= 1:
+            break
+    # sequential request phases only: a cancelled chunk of one fetch must not straggle into the next fetch of the sequence
+    base["cfg"]["parallelThreshold"] = 1 << 30
+    paths = [p["path"] for p in base["script"]["paths"]]
+    revocable = [p.rsplit("/", 1)[-1] or p for p in paths] + ["{L}", "{O}"]
+    steps = []
+    permissive = {"reject": ["forbidden"], "style": base["validator"]["style"]}
+    for i in range(rng.choice([2, 2, 3, 4])):
+        st = json.loads(json.dumps(base))
+        r = rng.random()
+        if i == 0:
+            st["validator"] = permissive if rng.random() < 0.7 else base["validator"]
+        elif r < 0.6:
+            st["validator"] = {"reject": ["forbidden", rng.choice(revocable)], "style": rng.choice(["plain", "url", "netloc", "perm"])}
+        elif r < 0.75:
+            st["validator"] = None
+        elif r < 0.9:
+            st["validator"] = base["validator"]
+        else:
+            st["validator"] = permissive
+        if i > 0 and rng.random() < 0.25:
+            st["url"] = st["url"].replace("{O}", "{L}") if "{O}" in st["url"] else st["url"].replace("{L}", "{O}")
+        steps.append(st)
+    return {"kind": "fetch-seq", "steps": steps}
+
+
+def seq_corpus() -> list[dict[str, Any]]:
+    """first fetch accepted by a permissive validator, second fetch on the same pool under a validator that revoked …"""
+    out = []
+    c0 = corpus()
+    chain = next(c for c in c0 if len(c["script"]["paths"]) == 3 and c.get("chain_pos"))        # r0 -> r1 -> obj
+    plain = c0[0]                                                                                 # /obj directly
+    for victim, src in (("/r1", chain), ("/obj", chain), ("/r0", chain), ("/obj", plain)):
+        a = json.loads(json.dumps(src))
+        a["validator"] = {"reject": ["forbidden"], "style": "url"}
+        b = json.loads(json.dumps(src))
+        b["validator"] = {"reject": ["forbidden", victim], "style": "plain"}
+        c = json.loads(json.dumps(src))
+        c["validator"] = {"reject": ["forbidden"], "style": "url"}
+        out.append({"kind": "fetch-seq", "steps": [a, b, c]})
+    return out
+
+
+def run_seq_case(ctx: Any, seq: dict[str, Any], tags: tuple[str, ...] = ()) -> None:
+    origin, meter = _setup()
+    live = subst(seq, origin)  # one substitution: every step sees the same URLs
+    prefix = live["_prefix"]
+    cfg = make_config(live["steps"][0]["cfg"])
+    outs = []
+    try:
+        for st in live["steps"]:
+            st["_prefix"] = prefix
+            st["cfg"] = live["steps"][0]["cfg"]
+            real = run_real(st, origin, meter, shared_cfg=cfg)
+            outs.append("ok" if "ok" in real["val"] else str(real["val"].get("err")))
+            if real["val"].get("err") == "unclassified":
+                ctx.mismatch(seq, None, real["val"], "implementation raised an exception outside the model's error classes")
+            # every fetch is judged against ITS validator and (model) as a fetch of its own: nothing carries over between fetches
+            oracle(ctx, seq, st, real)
+            correspond(ctx, seq, st, real)
+    finally:
+        try:
+            cfg.close()
+        except Exception:  # pragma: no cover
+            pass
+    ctx.case(seq, nontrivial=True, tags=("k:fetch-seq", f"seq:{len(outs)}", "seq-last:" + outs[-1]) + tags)
+
+
 def run(ctx: Any) -> None:
     rng = ctx.rng
     try:
@@ -1517,6 +1600,10 @@ def run(ctx: Any) -> None:
             run_fetch_case(ctx, gen_case(rng), ("src:grammar",))
         for _ in range(ctx.budget(12, 100)):
             run_fetch_case(ctx, gen_hedge_case(rng), ("src:hedge",))
+        for seq in seq_corpus():
+            run_seq_case(ctx, seq, ("src:corpus",))
+        for _ in range(ctx.budget(60, 1500)):
+            run_seq_case(ctx, gen_seq_case(rng), ("src:grammar",))
     finally:
         _teardown()
         # the module's daemon event-loop threads are closed per case; nothing may keep the process alive
@@ -1533,6 +1620,8 @@ def replay(ctx: Any, case: dict[str, Any]) -> None:
         k = case.get("kind")
         if k == "fetch":
             run_fetch_case(ctx, case, ("src:replay",))
+        elif k == "fetch-seq":
+            run_seq_case(ctx, case, ("src:replay",))
         elif k == "redact":
             check_redact(ctx, [(case["url"], case["secrets"], case["expected"])])
         elif k == "ranges":
